@@ -38,7 +38,9 @@ Record method_desc := {
   m_name : string;              (* name@line of the definition *)
   m_const : bool;
   m_reads : list string;        (* own members read (transitively through callees in the library) *)
-  m_effects : list effect }.
+  m_effects : list effect;
+  m_mutator : bool;             (* public non-const member that re-parameterises the object in place (setPrimes, read(istream&)) *)
+  m_writes : list string }.     (* own members a non-const member writes *)
 
 Record class_desc := {
   cd_name : string;
@@ -49,6 +51,7 @@ Record class_desc := {
   cd_copy : option (list (string * src));     (* None: not copy-constructible *)
   cd_assign : option (list (string * src));   (* None: no usable operator=    *)
   cd_reads : list string;
+  cd_params : list string;      (* members whose value the constructors derive from their parameters *)
   cd_copy_effects : list effect;              (* what copy-construction does to the SOURCE / shared heap *)
   cd_rc : option rc_desc;
   cd_methods : list method_desc }.
@@ -139,5 +142,12 @@ Definition sc_offenders (d : class_desc) : list string :=
 
 Definition rf_offenders (d : class_desc) : list string :=
   map m_name (filter (fun m => claimed_b m && negb (method_rf_b m)) (cd_methods d)).
+
+(* a re-parameterising member must rewrite every parameter-derived member and reset every lazily filled cache *)
+Definition mutator_ok_b (d : class_desc) (m : method_desc) : bool :=
+  forallb (fun x => mem x (m_writes m)) (cd_params d) &&
+  forallb (fun x => negb (written_b d x) || mem x (m_writes m)) (cd_members d).
+Definition mutator_offenders (d : class_desc) : list string :=
+  map m_name (filter (fun m => m_mutator m && negb (mutator_ok_b d m)) (cd_methods d)).
 
 Definition copy_rf_b (d : class_desc) : bool := forallb rf_benign_effect_b (cd_copy_effects d).
